@@ -238,3 +238,56 @@ def snapshot(root):
 def snap_diff(a, b):
     keys = sorted(set(a) | set(b))
     return [k for k in keys if a.get(k) != b.get(k)]
+
+
+def prelude(ctx, tag="pre", rate=5):
+    """In-process history: in a share of the cases another, unrelated tool operation on ANOTHER small
+    plotfile (other dimensionality, field count, level count) runs first in the same process, so that
+    state a tool leaves behind in the package (class attributes, module globals, caches) is in place
+    when the operation under test starts.  Outcomes of the prelude itself are not judged here."""
+    src = ctx.src
+    if not src.flag(f"{tag}.on", rate):
+        return None
+    from ..choice import RandomSource
+    sub = RandomSource(src.draw(f"{tag}.seed", 0, 9999))
+    op = src.choice(f"{tag}.op", ["colander", "mandoline", "taste", "menu", "reader", "pestle", "chk2plt"])
+    d = os.path.join(ctx.scratch, "prelude")
+    os.makedirs(d, exist_ok=True)
+    try:
+        if op == "chk2plt":
+            from .c17 import Chk2pltT
+            t = Chk2pltT()
+            t.draw(ctx, sub)
+            t.opts.update(in_form="abs", cwd="work", out="abs", cli=False)
+            t.prepare_root(os.path.join(d, "c2p"))
+            t.call(ctx, os.path.join(d, "c2p"))
+        else:
+            m = world.gen_world(sub, tag="p", special_ok=False, force_3d=(op == "pestle"))
+            p = os.path.join(d, "plt")
+            world.write_plotfile(m, p)
+            if op == "colander":
+                from amr_kitchen.colander.colander import Colander
+                run_tool(ctx, lambda: Colander(plotfile=p, output=os.path.join(d, "out"), variables=[m.fields[-1]]).strain(), cwd=d)
+            elif op == "mandoline":
+                from amr_kitchen.mandoline.mandoline import Mandoline
+                run_tool(ctx, lambda: Mandoline(p, fields=[m.fields[0]], serial=True, verbose=0).slice(fformat="return"), cwd=d)
+            elif op == "taste":
+                from amr_kitchen.taste import Taster
+                run_tool(ctx, lambda: bool(Taster(p, nofail=True, verbose=0, boxes_coordinates=True)), cwd=d)
+            elif op == "menu":
+                from amr_kitchen.menu.menu import Menu
+                run_tool(ctx, lambda: Menu(plt_file=p, min_max=True), cwd=d)
+            elif op == "reader":
+                from amr_kitchen import PlotfileCooker
+                run_tool(ctx, lambda: list(PlotfileCooker(p, maxmins=True)[[-1]][0]), cwd=d)
+            else:
+                from amr_kitchen import PlotfileCooker
+                from amr_kitchen.pestle import volume_integral
+                run_tool(ctx, lambda: volume_integral(PlotfileCooker(p, ghost=True), m.fields[0]), cwd=d)
+    finally:
+        ctx.reset_pools()
+        ctx.pool_seq = 0
+        import shutil
+        shutil.rmtree(d, ignore_errors=True)
+    ctx.probe("prelude." + op)
+    return op
